@@ -211,10 +211,11 @@ def reference_handshake(accepted, unix, fd_answer, refuse_with=None):
                     return b'DATA'
                 if mech == b'DBUS_COOKIE_SHA1':
                     return b'REJECTED ' + b' '.join(sorted(accepted))      # no usable keyring in the sandbox: refuse
-                return b'OK 1234deadbeef'
+                # (a GUID is hexadecimal: servers print it in lower, upper or mixed case)
+                return b'OK 1234DEADBEEF' if unix else b'OK 1234deadBEef'
             return b'REJECTED ' + b' '.join(sorted(accepted))
         if cmd == b'DATA' and st.get('ext'):
-            return b'OK 1234deadbeef'
+            return b'OK 1234deadbeef' if fd_answer != b'ERROR' else b'OK ABCDEF0123456789ABCDEF0123456789'
         if cmd == b'NEGOTIATE_UNIX_FD':
             return fd_answer
         if cmd == b'CANCEL':
